@@ -863,6 +863,194 @@ def encode_multi(c, obs):
     return "(" + ", ".join([term(c["n"]), term(c["q1"]), term(c["q2"]), term(bool(c["flex"])), term(steps)]) + ")"
 
 
+# --------------------------------------------------------------------------- leader election
+TICK_NS = 7_812_500          # 1/128 s: float seconds on this grid are exact
+
+
+def en(i):
+    return f"e{i}"
+
+
+def gen_election(rng):
+    ids = sorted(rng.sample(range(10), rng.randint(2, 5)))
+    order = list(ids)
+    rng.shuffle(order)                      # dict insertion order of the members map
+    strat = rng.choice([0, 0, 1, 1, 2])
+    tmo = rng.choice([16, 64, 256])
+    hb = rng.choice([8, 32, 64])
+    starts = [[rng.choice([0, 1, 3, 10]), i] for i in ids if rng.random() < 0.8] or [[0, ids[0]]]
+    pal = rng.choice([[1, 2, 3], [1, 1, 2, 40], [1, 5, 30, 150]])
+    delays = [(-1 if rng.random() < 0.08 else rng.choice(pal)) for _ in range(rng.randint(5, 40))]
+    parts = []
+    if rng.random() < 0.3:
+        m = list(ids)
+        rng.shuffle(m)
+        k = rng.randint(1, len(m) - 1)
+        tt = rng.choice([0, 20, 100, 300])
+        parts.append([tt, sorted(m[:k]), sorted(m[k:]), tt + rng.choice([50, 300, 600])])
+    return dict(members=order, strat=strat, tmo=tmo, hb=hb, starts=starts, delays=delays, parts=parts,
+                end=rng.choice([300, 600]), seed=rng.randrange(1000))
+
+
+@locked
+def run_election(c):
+    import random
+
+    from happysimulator.components.consensus.election_strategies import BullyStrategy, RandomizedStrategy, RingStrategy
+    from happysimulator.components.consensus.leader_election import LeaderElection
+    from happysimulator.components.network.link import NetworkLink
+    from happysimulator.components.network.network import Network
+    from happysimulator.core.event import Event
+    from happysimulator.core.simulation import Simulation
+    from happysimulator.core.temporal import Duration, Instant
+    from happysimulator.distributions.latency_distribution import LatencyDistribution
+
+    random.seed(c["seed"])
+    trace = []
+    script = {"i": 0}
+    delays = c["delays"] or [1]
+
+    class Scripted(LatencyDistribution):
+        def __init__(self):
+            super().__init__(0.001)
+
+        def get_latency(self, current_time):
+            d = delays[script["i"] % len(delays)]
+            script["i"] += 1
+            return Duration.from_seconds(LOST_S) if d < 0 else Duration(int(d) * TICK_NS)
+
+    def ticks(inst):
+        ns = inst.nanoseconds
+        assert ns % TICK_NS == 0, ns
+        return ns // TICK_NS
+
+    def emsg(t, md):
+        if t == "ElectionChallenge":
+            return ["Challenge", int(md["challenger"][1:]), md["term"]]
+        if t == "ElectionSuppress":
+            return ["Suppress", int(md["from"][1:])]
+        if t == "ElectionVictory":
+            return ["Victory", int(md["leader"][1:]), md["term"]]
+        if t == "ElectionToken":
+            return ["Token", int(md["initiator"][1:]), [int(x[1:]) for x in md["candidates"]], md["term"]]
+        if t == "ElectionBallot":
+            return ["Ballot", int(md["from"][1:]), md["ballot"], md["term"]]
+        if t == "ElectionBallotResponse":
+            return ["BallotResp", int(md["from"][1:]), md["ballot"], md["term"]]
+        raise ValueError(t)
+
+    def eout(ev):
+        md = ev.context.get("metadata", {})
+        if ev.event_type == "ElectionTimeoutCheck":
+            return ["Timer", ticks(ev.time)]
+        d = int(md["destination"][1:])
+        if ev.event_type == "LeaderHeartbeat":
+            return ["Heartbeat", d, int(md["leader"][1:]), md["term"]]
+        return ["Msg", d, emsg(ev.event_type, md)]
+
+    def snap(nd):
+        st = nd.stats
+        last_ns = round(nd._last_leader_heartbeat * 1e9)
+        assert last_ns % TICK_NS == 0
+        return [None if nd.current_leader is None else int(nd.current_leader[1:]), nd.current_term,
+                nd._election_in_progress, last_ns // TICK_NS, [st.elections_started, st.elections_won, st.elections_participated]]
+
+    class RecNode(LeaderElection):
+        def handle_event(self, event):
+            md = event.context.get("metadata", {})
+            now = ticks(self.now)
+            state = random.getstate()
+            res = super().handle_event(event)
+            outs = [eout(e) for e in (res or [])]
+            # the draw the strategy made (if any) is visible in the Ballot / BallotResponse it produced
+            rnd = 0
+            for o in outs:
+                if o[0] == "Msg" and o[2][0] in ("Ballot", "BallotResp") and o[2][1] == int(self.name[1:]):
+                    rnd = o[2][2]
+            if event.event_type == "ElectionTimeoutCheck":
+                inp = ["Timeout", now, rnd]
+            elif event.event_type == "LeaderHeartbeat":
+                inp = ["Heartbeat", now, int(md["leader"][1:]), md.get("term", 0)]
+            else:
+                inp = ["Msg", now, rnd, emsg(event.event_type, md)]
+            trace.append(dict(node=int(self.name[1:]), inp=inp, outs=outs, st=snap(self)))
+            return res
+
+    strat = [BullyStrategy, RingStrategy, lambda: RandomizedStrategy(ballot_range=50)][c["strat"]]
+    net = Network(name="net")
+    nodes = {i: RecNode(name=en(i), network=net, strategy=strat(), election_timeout=c["tmo"] / 128.0,
+                        heartbeat_interval=c["hb"] / 128.0) for i in c["members"]}
+    for nd in nodes.values():
+        for j in c["members"]:
+            nd.add_member(nodes[j])
+    lat = Scripted()
+    for i in nodes:
+        for j in nodes:
+            if i != j:
+                net.add_link(nodes[i], nodes[j], NetworkLink(name=f"l{i}_{j}", latency=lat, egress=nodes[j]))
+    sim = Simulation(end_time=Instant(c["end"] * TICK_NS), entities=[net, *nodes.values()])
+    for k, (t, i) in enumerate(c["starts"]):
+        def fn(event, i=i):
+            evs = nodes[i].start()
+            trace.append(dict(node=i, inp=["Start", ticks(nodes[i].now)], outs=[eout(e) for e in evs], st=snap(nodes[i])))
+            return evs
+        sim.schedule(Event.once(time=Instant(t * TICK_NS), event_type=f"start{k}", fn=fn))
+    for k, (t, ga, gb, heal) in enumerate(c.get("parts", [])):
+        def cut(event, ga=ga, gb=gb):
+            net.partition([nodes[a] for a in ga], [nodes[b] for b in gb])
+
+        def heal_fn(event):
+            net.heal_partition()
+        sim.schedule(Event.once(time=Instant(t * TICK_NS), event_type=f"Cut{k}", fn=cut))
+        sim.schedule(Event.once(time=Instant(heal * TICK_NS), event_type=f"Heal{k}", fn=heal_fn))
+    _, verdict = run_sim_bounded(sim, max_events=100000, wall_s=20.0)
+    return dict(trace=trace, verdict=verdict)
+
+
+def oracle_election(c, obs):
+    if obs["verdict"] != "ok":
+        return [dict(clause="run ends", verdict=obs["verdict"])]
+    by_term = {}
+    for k, s in enumerate(obs["trace"]):
+        leader, term = s["st"][0], s["st"][1]
+        if leader is None:
+            continue
+        by_term.setdefault(term, {}).setdefault(leader, (s["node"], k))
+    for term, m in by_term.items():
+        if len(m) > 1:
+            return [dict(clause="a leader-election component never reports two different leaders for the same term",
+                         term=term, leaders={str(l): v for l, v in m.items()})]
+    return []
+
+
+def encode_election(c, obs):
+    def em(m):
+        if m[0] == "Token":
+            return Ctor("KToken", m[1], list(m[2]), m[3])
+        return Ctor("K" + m[0], *m[1:])
+
+    def ein(i):
+        if i[0] == "Start":
+            return Ctor("EStart", i[1])
+        if i[0] == "Timeout":
+            return Ctor("ETimeout", i[1], i[2])
+        if i[0] == "Heartbeat":
+            return Ctor("EHeartbeat", i[1], i[2], i[3])
+        return Ctor("EMsg", i[1], i[2], em(i[3]))
+
+    def eo(o):
+        if o[0] == "Timer":
+            return Ctor("OETimer", o[1])
+        if o[0] == "Heartbeat":
+            return Ctor("OEHeartbeat", o[1], o[2], o[3])
+        return Ctor("OEMsg", o[1], em(o[2]))
+
+    def est(st):
+        return (None if st[0] is None else Ctor("SZ", st[0]), st[1], bool(st[2]), st[3], tuple(st[4]))
+    steps = [Ctor("ERS", s["node"], ein(s["inp"]), [eo(o) for o in s["outs"]], est(s["st"])) for s in obs["trace"]]
+    return "(" + ", ".join([term(list(c["members"])), term(c["strat"]), term(c["tmo"]), term(c["hb"]), term(steps)]) + ")"
+
+
 # --------------------------------------------------------------------------- families
 def describe_paxos(c):
     return f"paxos n={c['n']} {c.get('mode', 'corpus')} props={len(c['proposals'])}"
@@ -888,9 +1076,13 @@ FAMILIES = [
            gen_multi, run_multi, encode_multi, oracle_multi,
            lambda c, o: sum(1 for s in o["trace"] if s["inp"][0] == "Start") > 1 or any(s["inp"][0] == "Nack" for s in o["trace"]),
            attribute_multi, describe=lambda c: f"{'flex' if c['flex'] else 'multi'} n={c['n']} q=({c['q1']},{c['q2']}) {c['mode']}"),
+    Family("election", "From HS Require Import Base.Prelude C12.Model C12.ElectionModel.", "ok_election",
+           "list Z * Z * Z * Z * list erec", gen_election, run_election, encode_election, oracle_election,
+           lambda c, o: any(s["st"][0] is not None for s in o["trace"]),
+           describe=lambda c: f"election {['bully', 'ring', 'randomized'][c['strat']]} n={len(c['members'])}"),
 ]
 
-COQ_FILES = ["C12/Model.v", "C12/PaxosNode.v", "C12/PaxosSys.v", "C12/LockModel.v", "C12/Lock.v", "C12/MultiModel.v", "C12/Multi.v", "C12/Props.v"]
+COQ_FILES = ["C12/Model.v", "C12/PaxosNode.v", "C12/PaxosSys.v", "C12/LockModel.v", "C12/Lock.v", "C12/MultiModel.v", "C12/Multi.v", "C12/ElectionModel.v", "C12/Election.v", "C12/Props.v"]
 
 TRUSTED = [
     "Coq 8.16.1 kernel (coqc, vm_compute for case evaluation); no native_compute; no axioms",
@@ -936,7 +1128,7 @@ def run(ctx):
     ctx.prove(COQ_FILES, allowed_axioms=(), trusted_base=TRUSTED)
     fams = {f.name: f for f in FAMILIES}
     stats = run_jobs(ctx, [(fams["paxos"], ctx.n(240, 6000)), (fams["lock"], ctx.n(80, 1500)),
-                           (fams["multi"], ctx.n(120, 3000))], ctx.n(40, 250))
+                           (fams["multi"], ctx.n(120, 3000)), (fams["election"], ctx.n(40, 1000))], ctx.n(40, 250))
     merge_stats(ctx, stats, "random schedules (per-message delays, loss, partitions, retry jitter) over 3-5 nodes and 1-4 proposals; "
                 "non-trivial = competing ballots (a nack/retry occurred or more than one proposal); distinct by JSON of the input")
     ctx.finish_obligations()
